@@ -561,11 +561,43 @@ def _run(case, out, rig, variant, fault):
         rig.post("loop")
         rig.run()
         rig.top.auto_auth = True
-    if not _login(rig, variant, out, "initial"):
+    if kind == "app_raises" and fault.get("on") == "success" and variant == "proto":
+        # the application fails on the very stanza that completes the login.  The failure is reported - and the login has taken
+        # place all the same: the layers below have been told (the keep-alive and the key upload depend on that announcement)
+        from yowsup.layers.auth.layer_authentication import YowAuthenticationProtocolLayer
+        seen_below = []
+        probe = rig.stack.getLayer(3)
+        orig_on_event = probe.onEvent
+
+        def on_event(ev, _o=orig_on_event):
+            seen_below.append(ev.getName())
+            return _o(ev)
+        probe.onEvent = on_event
+        probs = rig.login()
+        if probs or rig.server.state != "transport":
+            out.fail("login", "initial:login_failed", {"problems": [str(p) for p in probs]})
+            return out
+        rig.top.raise_on = "success"
+        rig.server.send_frame(R.encode(("success", {"creation": "1", "props": "2", "t": "3", "location": "x"}, None)))
+        rig.shuttle()
+        probe.onEvent = orig_on_event
+        out.label("application_fails_on_success")
+        if rig.top.raise_on is not None:
+            raise HarnessError("the success stanza did not reach the application double")
+        if not rig.recv_errors and not rig.net_errors:
+            out.fail("report", "up_fault_not_reported_to_caller", {"fault": fault})
+            return out
+        del rig.recv_errors[:]
+        del rig.net_errors[:]
+        if YowAuthenticationProtocolLayer.EVENT_AUTHED not in seen_below:
+            out.fail("wedged", "app_raises_on_success:login_never_announced_to_the_stack", {"events_seen_below": [e.split(".")[-1] for e in seen_below]})
+            return out
+        state["fired"] = True
+    elif not _login(rig, variant, out, "initial"):
         return out
     if kind == "inject":
         install_fault(rig, fault, state)
-    if kind == "app_raises":
+    if kind == "app_raises" and fault.get("on") != "success":
         # the application fails on the first receipt - or on the reply to a ping it sent itself (the iq layer hands that one
         # upward from inside its own bookkeeping of outstanding pings)
         rig.top.raise_on = "iq" if fault.get("on") == "pong" else "receipt"
@@ -668,7 +700,8 @@ def _run(case, out, rig, variant, fault):
         if silent:
             out.fail("report", "%s_not_reported_to_caller" % kind, {"sends": silent})
             return out
-    if kind in ("garbage", "picture_bad", "streamerror_bad", "app_raises") or (kind == "inject" and fault["dir"] == "up" and state.get("fired")):
+    reported_at_login = kind == "app_raises" and fault.get("on") == "success"      # (checked where it happened)
+    if not reported_at_login and (kind in ("garbage", "picture_bad", "streamerror_bad", "app_raises") or (kind == "inject" and fault["dir"] == "up" and state.get("fired"))):
         if not rig.recv_errors and not rig.net_errors:
             out.fail("report", "up_fault_not_reported_to_caller", {"fault": fault})
             return out
@@ -827,6 +860,8 @@ def _enum_sites():
                "incoming": ["receipt", kind, "receipt", "receipt"], "choices": [], "reconnect": True}
     yield {"sub": "fault", "variant": "proto", "fault": {"kind": "app_raises"}, "tasks": [["ok"], ["ok"]],
            "incoming": ["receipt", "receipt", "receipt"], "choices": [], "reconnect": True}
+    yield {"sub": "fault", "variant": "proto", "fault": {"kind": "app_raises", "on": "success"}, "tasks": [["ok"], ["ok"]],
+           "incoming": ["receipt", "receipt"], "choices": [], "reconnect": True}
     for tasks in ([["ping"], ["ok"]], [["ping", "ok"], ["ok", "ping"]]):
         yield {"sub": "fault", "variant": "proto", "fault": {"kind": "app_raises", "on": "pong"}, "tasks": tasks,
                "incoming": ["pong", "receipt", "receipt"], "choices": [], "reconnect": True}
@@ -856,6 +891,8 @@ def case_strategy():
             elif kind in ("garbage", "picture_bad", "streamerror_bad"):
                 pos = draw(st.integers(0, len(incoming)))
                 incoming.insert(pos, kind)
+            elif kind == "app_raises" and variant == "proto" and draw(st.integers(0, 3)) == 0:
+                fault["on"] = "success"
             elif kind == "app_raises" and draw(st.booleans()):
                 fault["on"] = "pong"
                 tasks[draw(st.integers(0, ntasks - 1))].insert(0, "ping")
@@ -930,3 +967,5 @@ def plan(tier):
         "shrink": "ddmin",
         "budget_s": 150 if quick else 1500,
     }
+
+RULE += (' Also: the real socket dispatcher over scripted sockets (a layer above failing on chosen reads, a disconnect request for a connection that is already gone, reconnects); the profile write failing at the moment the session is established (eager server, complete single-preemption sweep); the application failing on the <success> stanza (the login must still be announced to the layers below).')
